@@ -219,7 +219,8 @@ def runCase (xs : List Sexp) : Option String :=
     let y ← toOperand yw yv
     pure (kv "r" (optStr (fun (p : Nat × Nat) => toString p.1 ++ ":" ++ toString p.2) (Impl.evalBin op x y)))
   | [.atom "uinv", w, a] => do
-    pure (kv "r" (optStr toString (Impl.invert (← atomNat w) (← atomNat a))))
+    let w ← atomNat w
+    pure (kv "r" (optStr (fun r => toString r ++ ":" ++ toString w) (Impl.invert w (← atomNat a))))
   | [.atom "uctor", w, a] => do
     pure (kv "r" (optStr toString (Impl.wrap (← atomNat w) (← atomInt a))))
   | [.atom "eq2", _, _, _] => some "ok=1"
